@@ -64,6 +64,8 @@ Print Assumptions C13_versions_count_caller_writes.
 (* Modes of the library components as modelled (after the fixes for F17, F29). *)
 Theorem C13_nack_copy_mode : forall p, lib_mode NackCopy p = MVal. Proof. exact nack_copy_mode. Qed.
 Print Assumptions C13_nack_copy_mode.
+Theorem C13_nack_rtx_mode : forall p, lib_mode NackRtx p = MVal. Proof. exact nack_rtx_mode. Qed.
+Print Assumptions C13_nack_rtx_mode.
 Theorem C13_nack_nocopy_mode : forall p, lib_mode NackNoCopy p = MRef. Proof. exact nack_nocopy_mode. Qed.
 Print Assumptions C13_nack_nocopy_mode.
 Theorem C13_flexfec_mode : forall p, lib_mode FlexFec p = MVal. Proof. exact flexfec_mode. Qed.
